@@ -171,6 +171,20 @@ def run(ctx):
                     ctx.undecided(R3, 'cap:%s' % g.path, 'a buffer is allocated with a capacity that is neither a constant nor a recognised bounded quantity: %s' % fmt(n)[:60], fn=g, at=t.get('span'))
                 else:
                     ctx.check(R3, r, 'cap:%s' % g.path, 'a buffer is allocated with a capacity that grows with the data (%s): opening a stream on a large FST then costs memory proportional to the FST, not to the key length' % fmt(n)[:80], fn=g, at=t.get('span'))
+    # building an operation stream does not run its inputs: the constructors only move the input streams into the heap (which primes one
+    # item per stream); draining an input there keeps all its keys in memory
+    R4 = ctx.rule('R14.4', 'operation constructors do not drain their input streams', floor=4)
+    for m in ('union', 'intersection', 'difference', 'symmetric_difference'):
+        g = lib.fn("raw::ops::OpBuilder::<'f>::" + m)
+        if g is None:
+            ctx.missing(R4, 'anchor:' + m, 'operation constructor not found')
+            continue
+        drains = False
+        for h, body in g.loops().items():
+            cs = [(g.callee(t) or g.callee_decl(t) or '') for bid, t in g.calls() if bid in body]
+            if any(c.endswith('::next') for c in cs) and any(SM.is_grow(c) for c in cs):
+                drains = True
+        ctx.check(R4, not drains, 'constructor:' + m, 'the %s constructor loops over an input stream and collects what it yields: memory proportional to that stream before the first key is produced' % m, fn=g)
     inv = growth.type_inventory(lib, STREAM_ADTS)
     extra = {k: n for k, n in inv.items() if n > INV.get(k, 0)}
     for (a, ty), n in sorted(extra.items()):
